@@ -291,6 +291,21 @@ def entry_nodes(rng, rel, kind, tag, link_target=None):
                 {'p': rel + '/a-regular-file', 't': 'f', 'c': '%s first\n' % tag},
                 {'p': rel + '/pipe', 't': 'p', 'm': 0o600},
                 {'p': rel + '/z-last', 't': 'f', 'c': '%s last\n' % tag}]
+    if kind == 'tree_locked':
+        # a directory nobody may enter (mode 000) with content below it:
+        # removable only after a chmod, which a purge must not need to survive
+        return [{'p': rel, 't': 'd', 'm': 0o755},
+                {'p': rel + '/a-file', 't': 'f', 'c': '%s a\n' % tag},
+                {'p': rel + '/locked', 't': 'd', 'm': 0o000},
+                {'p': rel + '/locked/inside', 't': 'f', 'c': '%s inside\n' % tag},
+                {'p': rel + '/z-file', 't': 'f', 'c': '%s z\n' % tag}]
+    if kind == 'tree_readonly':
+        # read-only directories (an extracted archive, a go module cache)
+        return [{'p': rel, 't': 'd', 'm': rng.choice([0o755, 0o555])},
+                {'p': rel + '/a-file', 't': 'f', 'c': '%s a\n' % tag, 'm': 0o444},
+                {'p': rel + '/ro', 't': 'd', 'm': 0o555},
+                {'p': rel + '/ro/inside', 't': 'f', 'c': '%s inside\n' % tag, 'm': 0o444},
+                {'p': rel + '/z-file', 't': 'f', 'c': '%s z\n' % tag}]
     if kind in ('fifo', 'socket'):
         return [{'p': rel, 't': 'p' if kind == 'fifo' else 's',
                  'm': rng.choice([0o600, 0o644, 0o666])}]
